@@ -95,6 +95,7 @@ class Types:
     def __init__(self):
         self.structs = {}     # name -> [(field, type string)]
         self.loader = None    # called with a struct name that is not known yet
+        self.typedefs = None  # name -> underlying type string (or None)
 
     def parse(self, s):
         """-> ('int', ity) | ('ptr', elem) | ('arr', elem, n) | ('struct', name) | ('void',) | ('fn',)"""
@@ -118,6 +119,10 @@ class Types:
             return ('struct', s[7:].strip())
         if s == 'void':
             return ('void',)
+        if self.typedefs is not None and re.match(r'^[A-Za-z_][A-Za-z0-9_]*$', s):
+            u = self.typedefs(s)
+            if u and u != s:
+                return self.parse(u)
         raise Unsupported('type %r' % s)
 
     def cells(self, t):
@@ -183,6 +188,23 @@ class Fn:
         self.tr, self.decl = tr, decl
         self.locals = {}        # clang id -> index
         self.nparams = 0
+        self.inmem = {}         # clang id -> type: locals that live in a block of their own (arrays, address taken);
+                                # the local slot then holds the pointer to that block
+        self.statics = {}       # clang id -> global name (static locals)
+        self.addr_taken = set()
+        self.find_addr_taken(decl)
+
+    def find_addr_taken(self, n):
+        if not isinstance(n, dict):
+            return
+        if n.get('kind') == 'UnaryOperator' and n.get('opcode') == '&':
+            x = n['inner'][0]
+            while x.get('kind') == 'ParenExpr':
+                x = x['inner'][0]
+            if x.get('kind') == 'DeclRefExpr' and x['referencedDecl']['kind'] in ('VarDecl', 'ParmVarDecl'):
+                self.addr_taken.add(x['referencedDecl']['id'])
+        for c in n.get('inner', []):
+            self.find_addr_taken(c)
 
     def local(self, node):
         return self.locals[node['id']]
@@ -200,6 +222,10 @@ class Fn:
             rd = n['referencedDecl']
             t = T.parse(qt(n))
             if rd['kind'] in ('VarDecl', 'ParmVarDecl'):
+                if rd['id'] in self.statics:
+                    return ('mem', '(EGlob %s)' % self.statics[rd['id']], t)
+                if rd['id'] in self.inmem:
+                    return ('mem', '(ELocal %d)' % self.locals[rd['id']], t)
                 if rd['id'] in self.locals:
                     return ('local', self.locals[rd['id']], t)
                 return ('mem', '(EGlob %s)' % self.tr.global_of(rd), t)
@@ -354,7 +380,12 @@ class Fn:
                         return '(EIncLocal %s %d (Some %s) %s)' % (post, lv[1], lv[2][1], Z(sign))
                     if lv[2][0] == 'ptr':
                         return '(EIncLocal %s %d None %s)' % (post, lv[1], Z(sign * T.cells(lv[2][1])))
-                raise Unsupported('++/-- on memory')
+                if lv[0] == 'mem':
+                    if lv[2][0] == 'int':
+                        return '(EIncMem %s (Some %s) %s %s)' % (post, lv[2][1], Z(sign), lv[1])
+                    if lv[2][0] == 'ptr':
+                        return '(EIncMem %s None %s %s)' % (post, Z(sign * T.cells(lv[2][1])), lv[1])
+                raise Unsupported('++/-- on an object of type %r' % (lv[2],))
             if op == '*':
                 return self.load(self.lvalue(n))
             raise Unsupported('unary %s' % op)
@@ -497,9 +528,21 @@ class Fn:
             for d in n['inner']:
                 if d['kind'] != 'VarDecl':
                     raise Unsupported('declaration %s' % d['kind'])
-                if d.get('storageClass') == 'static':
-                    raise Unsupported('static local %s' % d.get('name'))
                 t = self.tr.types.parse(qt(d))
+                if d.get('storageClass') == 'static':
+                    # a static local is a global with a mangled name
+                    self.statics[d['id']] = self.tr.global_of(d, mangled='%s__%s' % (self.decl['name'], d['name']), node=d)
+                    continue
+                if t[0] in ('arr', 'struct') or d['id'] in self.addr_taken:
+                    # lives in a fresh block of its own; the local slot holds the pointer to it
+                    if d.get('inner') and t[0] != 'int' and t[0] != 'ptr':
+                        raise Unsupported('initializer of the local aggregate %s' % d.get('name'))
+                    self.newlocal(d)
+                    self.inmem[d['id']] = t
+                    out.append('(SExpr (ESetLocal %d (EBuiltin BMalloc [(EConst %d)])))' % (self.local(d), self.tr.types.cells(t)))
+                    if d.get('inner'):
+                        out.append('(SExpr %s)' % self.assign(('mem', '(ELocal %d)' % self.local(d), t), self.rv(d['inner'][0])))
+                    continue
                 if t[0] not in ('int', 'ptr'):
                     raise Unsupported('local %s of type %r' % (d.get('name'), t))
                 self.newlocal(d)
@@ -543,6 +586,10 @@ class Fn:
                 self.nparams += 1
             elif c['kind'] == 'CompoundStmt':
                 body = c
+        pre = []
+        for c in self.decl.get('inner', []):
+            if c['kind'] == 'ParmVarDecl' and c['id'] in self.addr_taken:
+                raise Unsupported('address of the parameter %s' % c.get('name'))
         s = self.st(body)
         return self.nparams, len(self.locals), s
 
@@ -554,6 +601,8 @@ class Translator:
         self.byfile = {(f, n): c for f, n, c in FUNCS}
         self.externs = []
         self.types.loader = self.load_struct
+        self.types.typedefs = self.typedef_of
+        self.tdcache = {}
         self.globals = []        # (name, coq block text)
         self.gindex = {}
         self.gvars = {}          # file-level cache: name -> VarDecl node
@@ -571,6 +620,16 @@ class Translator:
         if cname not in self.externs:
             self.externs.append(cname)
         return 'X_' + cname
+
+    def typedef_of(self, name):
+        if name not in self.tdcache:
+            self.tdcache[name] = None
+            if self.cur_file:
+                for d in ast_docs(os.path.join(REPO, self.cur_file), name):
+                    if d.get('kind') == 'TypedefDecl' and d.get('name') == name:
+                        t = d.get('type', {})
+                        self.tdcache[name] = (t.get('desugaredQualType') or t.get('qualType') or '').replace('const ', '').strip()
+        return self.tdcache[name]
 
     def load_struct(self, name):
         for d in ast_docs(os.path.join(REPO, self.cur_file), name):
@@ -615,18 +674,38 @@ class Translator:
             self.globals.append((name, 'cstr_block [%s]' % '; '.join(str(c) for c in out)))
         return 'G_' + name
 
-    def global_of(self, rd):
-        name = rd['name']
+    def global_of(self, rd, mangled=None, node=None):
+        name = mangled or rd['name']
         if name in self.gindex:
             return 'G_' + name
-        # find the definition with its initializer in the current file
-        docs = ast_docs(os.path.join(REPO, self.cur_file), name)
-        vd = None
-        for d in docs:
-            if d.get('kind') == 'VarDecl' and d.get('name') == name and d.get('inner'):
-                vd = d
+        # find the definition (with its initializer if it has one) in the current file
+        vd = node
+        zero = None
         if vd is None:
-            raise Unsupported('global %s has no initializer in %s' % (name, self.cur_file))
+            # the current file first, then (for an extern declaration) the file that defines it
+            cands = [self.cur_file] + sorted(f for f in os.listdir(REPO) if f.endswith('.c') and f != self.cur_file and
+                                             re.search(r'^[A-Za-z_][^\n;(]*\b%s\b[^\n;(]*[;=]' % re.escape(rd['name']),
+                                                       open(os.path.join(REPO, f), errors='replace').read(), re.M))
+            for cf in cands:
+                for d in ast_docs(os.path.join(REPO, cf), rd['name']):
+                    if d.get('kind') == 'VarDecl' and d.get('name') == rd['name'] and d.get('storageClass') != 'extern':
+                        if cf != self.cur_file and d.get('storageClass') == 'static':
+                            continue
+                        if d.get('inner') and any(c.get('kind') not in (None,) for c in d['inner']):
+                            vd = d
+                        elif zero is None:
+                            zero = d
+                if vd is not None or zero is not None:
+                    break
+        if vd is None or not vd.get('inner'):
+            z = vd or zero
+            if z is None:
+                raise Unsupported('global %s is not defined in %s' % (name, self.cur_file))
+            # a definition without initializer: zero-initialised
+            t = self.types.parse(qt(z))
+            self.gindex[name] = len(self.globals)
+            self.globals.append((name, 'repeat (VInt 0) %d' % self.types.cells(t)))
+            return 'G_' + name
         t = self.types.parse(qt(vd))
         cells = []
 
